@@ -351,9 +351,72 @@ def extra(ctx, eng):
     ctx.log(f"schedule enumeration: {total} cases")
 
 
+def _tally(ctx):
+    """count the oracle's verdicts (ok / ? / known:<key> / bad) of every run: measured, goes into the evidence"""
+    import collections
+    from vlib import corr
+    from vlib.core import split_res
+    if getattr(corr.Engine, "_c10_tally", False):
+        return
+    orig = corr.Engine.run3
+
+    def run3(self, cases):
+        res = orig(self, cases)
+        t = self.ctx.cov.setdefault("oracle_verdicts", collections.Counter())
+        for _, _, judge in res:
+            for l in judge:
+                _, r = split_res(l)
+                if r is not None:
+                    t[r if r.startswith("known:") else r.split(" ", 1)[0]] += 1
+        return res
+    corr.Engine.run3 = run3
+    corr.Engine._c10_tally = True
+
+
 def run(ctx):
+    """std.run with two additions: (1) if a known-finding replay no longer corresponds (the tree was changed), the generated
+    cases and the schedule enumeration are still run, so that a property failure is reported with its own replay instead of
+    the bare 'correspondence broke' verdict; (2) the oracle's verdicts are tallied into the evidence."""
+    import os
     import sys
-    return std.run(ctx, sys.modules[__name__], extra=extra)
+    from vlib import core
+    from vlib.corr import Engine, finalize_cov
+    pm = sys.modules[__name__]
+    _tally(ctx)
+    ok, problem = core.lean_stage(ctx, ())
+    ctx.log("lean stage:", "ok" if ok else "BROKEN", f"({ctx.cov.get('discharged')}/{ctx.cov.get('obligations')} theorems)")
+    binary, log = core.build_harness()
+    if binary is None or not os.path.exists(core.DRIVER):
+        return std.run(ctx, pm)          # reports the build problem
+    eng = Engine(ctx, pm, binary)
+    eng.replay_known()
+    stash, ctx.violations = ctx.violations, []
+    corp = corpus()
+    if corp:
+        eng.check(corp, "corpus")
+    n, done = SIZES[ctx.tier], 0
+    while done < n and not ctx.violations:
+        k = min(BATCH, n - done)
+        eng.check(gen(ctx, k), "generated")
+        done += k
+        ctx.log(f"{done}/{n} cases, {ctx.cov.get('evaluations', 0)} observations compared")
+    if not ctx.violations:
+        extra(ctx, eng)
+    if not ctx.violations:
+        ctx.violations = stash
+    if not ok and not ctx.violations:
+        ctx.violation("proof-broken.txt",
+                      f"proof obligations of Sentinel.Props.{ctx.prop} no longer check:\n{problem}\n"
+                      "the correspondence run found no input on which the property fails\n", no_input=True)
+    finalize_cov(ctx, RULE)
+    if "oracle_verdicts" in ctx.cov:
+        ctx.cov["oracle_verdicts"] = dict(ctx.cov["oracle_verdicts"])
+    if ctx.tier == "thorough" and ok:
+        rc, so, se = core.sh(["lake", "env", "leanchecker", f"Sentinel.Props.{ctx.prop}"], cwd=core.LEAN, timeout=3600)
+        ctx.cov["leanchecker"] = "ok" if rc == 0 else ("failed: " + (so + se)[-500:])
+        if rc != 0:
+            ctx.violation("leanchecker.txt", so + se, no_input=True)
+    return ctx.finish()
 
 
 META = {
